@@ -5,6 +5,7 @@ package cronmc
 
 import (
 	"fmt"
+	fakeclock "k8s.io/utils/clock/testing"
 	"sort"
 	"strings"
 	"time"
@@ -83,6 +84,7 @@ type Harness struct {
 	CronCtx *croncontroller.Context
 	Out     []Emission
 	InitErr error
+	drift   *driftClock
 }
 
 type recorder struct{ h *Harness }
@@ -160,6 +162,9 @@ func NewHarness(p Pop, seed bool) *Harness {
 		}
 	}
 	b.Clock.SetTime(h.T0)
+	// The scheduler reads its clock through this wrapper (transparent unless TickDrifting is used).
+	h.drift = &driftClock{FakeClock: b.Clock}
+	croncontroller.Clock = h.drift
 	b.Build = func(b *mc.Base) {
 		if p.ConstructEarlyS > 0 {
 			b.Clock.SetTime(h.T0.Add(-time.Duration(p.ConstructEarlyS) * time.Second))
@@ -176,6 +181,51 @@ func NewHarness(p Pop, seed bool) *Harness {
 	}
 	b.Start()
 	return h
+}
+
+// driftClock lets time pass while Work() runs: every reading advances the simulated clock by step.
+// A Work() that keeps reading the clock beyond limit readings is taken not to return.
+type driftClock struct {
+	*fakeclock.FakeClock
+	step  time.Duration
+	reads int
+	limit int
+}
+
+type workNeverReturns struct{ reads int }
+
+func (d *driftClock) Now() time.Time {
+	if d.step > 0 {
+		d.reads++
+		if d.reads > d.limit {
+			panic(workNeverReturns{d.reads})
+		}
+		d.FakeClock.SetTime(d.FakeClock.Now().Add(d.step))
+	}
+	return d.FakeClock.Now()
+}
+
+// TickDrifting is Tick with the clock advancing by step at every reading made during Work().
+// returned=false means Work() did not come back within the reading limit.
+func (h *Harness) TickDrifting(d, step time.Duration) (got []Emission, returned bool) {
+	h.Clock.SetTime(h.Now().Add(d))
+	before := len(h.Out)
+	h.drift.step, h.drift.reads, h.drift.limit = step, 0, 5000
+	returned = true
+	func() {
+		defer func() {
+			h.drift.step = 0
+			if r := recover(); r != nil {
+				if _, ok := r.(workNeverReturns); ok {
+					returned = false
+					return
+				}
+				panic(r)
+			}
+		}()
+		h.Worker.Work()
+	}()
+	return append([]Emission(nil), h.Out[before:]...), returned
 }
 
 // Tick advances the clock by d and runs one Work() iteration; it returns the emissions of this tick.
